@@ -251,6 +251,38 @@ def plan(ck):
     # (Yeast, Mold, Mycoplasma, Invertebrate, Echinoderm, Euplotid, Ascidian, Blepharisma all have 62 sense codons)
     for code in rng.sample([2, 3, 5, 7, 8, 11, 13], 2):
         cases.append(special("MG94", code=code))
+    # SIZE OF THE CALL x STRUCTURED rate matrices: many branch lengths in one p_t call (1, 2, 32, 33, 64, 500) must equal the
+    # one-at-a-time evaluation and exp(tQ); nearly defective / banded / nearly reducible / stiff generators
+    for kind in ("GeneralNonSymmetric", "GeneralSymmetric"):
+        for structure in ("ordered", "banded", "block", "stiff"):
+            for count in ((1, 2, 32, 33, 64, 500) if (th or structure == "ordered") else (33, 64)):
+                cases.append(M.structured_case(rng, kind, 8 if structure != "stiff" else 5, structure, count,
+                                               layout=rng.choice(["B1", "B1", "vec", "1K"]),
+                                               batch="all" if count == 64 else "none"))
+    for kind in ("HKY", "GTR", "JC69", "GeneralJC69", "LG"):
+        c = special(kind)
+        c["many"] = {"ts": [0.0] + [round(10 ** rng.uniform(-3, 1), 6) for _ in range(rng.choice([32, 63, 99]))], "layout": "B1"}
+        cases.append(c)
+    # live update of the STRUCTURAL parameter: the GTR layout of the general symmetric model re-mapped to the documented
+    # HKY layout [0,1,0,0,1,0], then a rate update read through the new layout (and the non-symmetric analogue)
+    c = special("GeneralSymmetric", n=4)
+    c["route"] = {"kind": "ctor", "mapping": "list"}
+    c["mapping"] = list(range(6))
+    c["params"]["rates"] = [[M.gen_rate(rng, False) for _ in range(6)]]
+    c["holder"] = {}
+    c["updates"] = [{"set": {"mapping": [0, 1, 0, 0, 1, 0]}},
+                    {"set": {"rates": [[M.gen_rate(rng, False) for _ in range(6)]]}},
+                    {"set": {"mapping": [rng.randrange(6) for _ in range(6)]}}]
+    cases.append(c)
+    for route_kind in ("ctor", "json"):
+        c = special("GeneralNonSymmetric", n=3)
+        c["route"] = {"kind": route_kind, "mapping": "list", "order": 3, "form": "inline", "fulltype": False}
+        c["mapping"] = list(range(6))
+        c["params"]["rates"] = [[M.gen_rate(rng, False) for _ in range(6)]]
+        c["holder"] = {}
+        c["updates"] = [{"set": {"mapping": [rng.randrange(6) for _ in range(6)]}},
+                        {"set": {"rates": [[M.gen_rate(rng, False) for _ in range(6)]]}}]
+        cases.append(c)
     # every parameter argument as every AbstractParameter subclass (view of a shared vector, transformed, cat), as
     # python objects and as JSON, with one reassignment through the holder
     import c04c05_holders as H
